@@ -821,6 +821,7 @@ pub fn oracle_c10(toks: &[&str]) -> String {
         other => panic!("o_c10: parser {other}"),
     };
     let total = line.len() * lines;
+    let read_size = if read_size == 0 { line.len() } else { read_size };   // 0: exactly one line per read
     let src = LineGen { line: line.clone(), total, produced: 0, read_size };
     crate::alloc::reset_peak();
     let base = crate::alloc::current();
